@@ -65,13 +65,13 @@ func (s *subscriptionsState) CreateFrom(sessionID string, peer uint64, pattern [
 		QoS:       qos,
 		LastAdded: clock(),
 	}
-	s.set(subscription)
 	buf, err := proto.Marshal(&api.StateBroadcastEvent{
 		Subscriptions: []*api.Subscription{&subscription},
 	})
 	if err != nil {
 		return err
 	}
+	s.set(subscription)
 	mountpointIdx := bytes.Index(pattern, []byte{'/'})
 	s.recorder.RecordEvent(string(pattern[:mountpointIdx]), audit.SubscriptionCreated, map[string]string{
 		"session_id": sessionID,
@@ -91,13 +91,13 @@ func (s *subscriptionsState) Delete(sessionID string, pattern []byte) error {
 		Peer:        s.peer,
 		LastDeleted: clock(),
 	}
-	s.set(subscription)
 	buf, err := proto.Marshal(&api.StateBroadcastEvent{
 		Subscriptions: []*api.Subscription{&subscription},
 	})
 	if err != nil {
 		return err
 	}
+	s.set(subscription)
 	mountpointIdx := bytes.Index(pattern, []byte{'/'})
 	s.recorder.RecordEvent(string(pattern[:mountpointIdx]), audit.SubscriptionDeleted, map[string]string{
 		"session_id": sessionID,
@@ -118,12 +118,14 @@ func (s *subscriptionsState) DeletePeer(peer uint64) {
 	for _, subscription := range toDelete {
 		subscription := subscription
 		subscription.LastDeleted = now
-		s.set(subscription)
 		event.Subscriptions = append(event.Subscriptions, &subscription)
 	}
 	buf, err := proto.Marshal(event)
 	if err != nil {
 		return
+	}
+	for _, subscription := range event.Subscriptions {
+		s.set(*subscription)
 	}
 	s.bcast.QueueBroadcast(simpleBroadcast(buf))
 }
@@ -138,12 +140,14 @@ func (s *subscriptionsState) DeleteSession(id string) {
 	for _, subscription := range toDelete {
 		subscription := subscription
 		subscription.LastDeleted = now
-		s.set(subscription)
 		event.Subscriptions = append(event.Subscriptions, &subscription)
 	}
 	buf, err := proto.Marshal(event)
 	if err != nil {
 		return
+	}
+	for _, subscription := range event.Subscriptions {
+		s.set(*subscription)
 	}
 	s.bcast.QueueBroadcast(simpleBroadcast(buf))
 }
